@@ -519,6 +519,12 @@ def target_classes():
     bivA = {'constant-column': np.column_stack([np.full(6, .5), np.linspace(.1, .9, 6)]), 'scaled': dep(60, 0.2), 'bigger': dep(150, 0.7),
             'smaller': dep(8, 0.5), 'negative-dependence': dep(50, 0.6, True), 'outside-unit': np.array([[.1, .2], [1.5, .4], [.3, .9]]),
             'empty': np.zeros((0, 2)), 'nan': np.array([[.1, .2], [np.nan, .4], [.3, .9]])}
+    def repair(vals, like):
+        """the multiset `vals` arranged in the rank order of `like`"""
+        return np.sort(np.asarray(vals))[np.argsort(np.argsort(np.asarray(like)))]
+    # same margins as the target (identical column multisets, hence identical shape / labels / min / max / sorted values), other dependence
+    w = dep(60, 0.15)
+    bivA['same-margins'] = np.column_stack([repair(B[:, 0], w[:, 0]), repair(B[:, 1], w[:, 1])])
     for cls in (Clayton, Frank, Gumbel):
         out[cls.__name__] = dict(make=cls, kind='biv', X=B, A=bivA)
     n = 45
@@ -530,8 +536,11 @@ def target_classes():
             'smaller': T.iloc[:7].copy(), 'other-columns': pd.DataFrame({'x': r.normal(size=20), 'y': r.normal(size=20)}),
             'nan': pd.DataFrame({'a': [1.0, np.nan, 3.0], 'b': [1.0, 2.0, 3.0], 'c': [0.0, 1.0, 0.5]}), 'empty': pd.DataFrame(),
             'strings': pd.DataFrame({'a': ['x', 'y', 'z']})}
+    g = r.normal(size=n)
+    tabA['same-margins'] = pd.DataFrame({'a': repair(T['a'], g), 'b': repair(T['b'], -g + 0.3 * r.normal(size=n)),
+                                         'c': repair(T['c'], g + 0.5 * r.normal(size=n))})
     out['GaussianMultivariate'] = dict(make=GaussianMultivariate, kind='multi', X=T,
-                                       A={k: tabA[k] for k in ('constant-column', 'other-columns', 'nan')})
+                                       A={k: tabA[k] for k in ('constant-column', 'other-columns', 'nan', 'same-margins')})
     out['GaussianMultivariate(GaussianUnivariate)'] = dict(make=lambda **k: GaussianMultivariate(distribution=U.GaussianUnivariate, **k),
                                                            kind='multi', X=T, A=tabA)
     out['GaussianMultivariate({b: KDE(sample_size=10)})'] = dict(
@@ -540,7 +549,7 @@ def target_classes():
         kind='multi', X=T, A={k: tabA[k] for k in ('constant-column', 'scaled', 'nan')})
     for vt in ('center', 'direct', 'regular'):
         out[f'VineCopula({vt})'] = dict(make=lambda vt=vt, **k: VineCopula(vt, **k), kind='vine', X=T,
-                                        A={k: tabA[k] for k in ('scaled', 'smaller', 'nan', 'empty', 'strings')})
+                                        A={k: tabA[k] for k in ('scaled', 'smaller', 'nan', 'empty', 'strings', 'same-margins')})
     return out
 
 
